@@ -164,3 +164,16 @@ package keeper
 //@        (!res_GetPriceTRLatest_1 ==> defined(res_GetNextRoundID_0) && arg_priceTR.RoundID == res_GetNextRoundID_0 && arg_priceTR.Price == "")
 //@   ensures[C12.grid.once] defined(res_AppendPriceTR_0)
 //@   ensures[C12.grid.reported] res_GetPriceTRLatest_1 ==> price == res_GetPriceTRLatest_0.Price
+
+// C13 (a submission is counted only if every price it reports carries a well-formed timestamp that is not in the
+// future): the check looks at EVERY price of every source - the one the inner loop is at, not a fixed one.
+//@ func checkTimestamp
+//@   requires msg != nil
+//@   flag noframe
+//@   flag pure=UnwrapSDKContext,BlockTime,UTC,ParseInLocation,Add,Before,New
+//@ loop #1
+//@   invariant true
+//@ loop #2
+//@   invariant true
+//@   before[C13.ct.each] ParseInLocation requires arg1 == deref["x/oracle/types.PriceTimeDetID"](deref["x/oracle/types.PriceSource"](msg.Prices[outer_phi1 + 1]).Prices[phi1 + 1]).Timestamp
+//@   step[C13.ct.each] defined(res_ParseInLocation_0)
